@@ -46,6 +46,7 @@ void pxgstrf_scheduler(const int_t pnum, const int_t n, const int_t *etree, int_
         vh_assume(j + w <= N);
         for (k = 0; k < NPAN; ++k) if (k < ngiven) vh_assume(j + w <= given[k] || given[k] + gw[k] <= j);   /* panels are disjoint */
         s->pan_status[j].size = w; s->pan_status[j].type = vh_int_in(0, 1) ? RELAXED_SNODE : REGULAR_PANEL;
+        vh_assume(j >= 1 || s->pan_status[j].type == RELAXED_SNODE);   /* column 0 is a leaf: always part of a relaxed supernode */
         s->pan_status[j].state = BUSY;
         for (k = j; k < j + w; ++k) s->spin_locks[k] = 1;
         given[ngiven] = j; gw[ngiven] = w; ++ngiven;
@@ -53,7 +54,7 @@ void pxgstrf_scheduler(const int_t pnum, const int_t n, const int_t *etree, int_
         --s->tasks_remain;
     } else {
         *cur_pan = EMPTY;
-        if (ngiven >= NPAN || vh_int_in(0, 1)) s->tasks_remain = 0;   /* the other workers took the rest */
+        { static int polls; if (ngiven >= NPAN || ++polls >= 2 || vh_int_in(0, 1)) s->tasks_remain = 0; }   /* the other workers took the rest */
     }
 }
 static int_t outcome(int_t col, int_t n)        /* 0, "zero pivot at col", or a memory error */
@@ -88,7 +89,6 @@ void pdgstrf_panel_dfs(const int_t a, const int_t b, const int_t c, const int_t 
 void pdgstrf_panel_bmod(const int_t a, const int_t b, const int_t c, const int_t d, const int_t e, int_t *f, int_t *g, int_t *h, int_t *i,
                         int_t *j, int_t *k, int_t *l, int_t *m, double *n, double *o, pxgstrf_shared_t *p) {}
 void pxgstrf_pruneL(const int_t a, const int_t *b, const int_t c, const int_t d, const int_t *e, const int_t *f, int_t *g, int_t *h, GlobalLU_t *i) {}
-void pxgstrf_resetrep_col(const int_t a, const int_t *b, int_t *c) {}
 void pxgstrf_super_bnd_dfs(const int_t a, const int_t b, const int_t c, const int_t d, const int_t e, SuperMatrix *f, int_t *g, int_t *h,
                            int_t *i, int_t *j, int_t *k, int_t *l, int_t *m, pxgstrf_shared_t *n) {}
 
